@@ -131,7 +131,8 @@ pub fn def_from(v: &Value) -> Term<Def> {
 
 pub fn def_to(d: &Term<Def>) -> Value {
     match &d.term {
-        Def::Assign { var, value } => json!({"tid": tid_to(&d.tid), "k": "assign", "var": var_to(var), "value": expr_to(value)}),
+        // "bytesize": the library's own Expression::bytesize of the assigned value (cross-checked by the encoder)
+        Def::Assign { var, value } => json!({"tid": tid_to(&d.tid), "k": "assign", "var": var_to(var), "value": expr_to(value), "bytesize": u64::from(value.bytesize())}),
         Def::Load { var, address } => json!({"tid": tid_to(&d.tid), "k": "load", "var": var_to(var), "address": expr_to(address)}),
         Def::Store { address, value } => json!({"tid": tid_to(&d.tid), "k": "store", "address": expr_to(address), "value": expr_to(value)}),
     }
